@@ -164,6 +164,12 @@ def arithmetic_check(run, items, label):
 @prop('C12')
 def C12(run):
     broken = lean_gate(run, THEOREMS['C12'])
+    if not broken:
+        from props import gen_gate
+        broken = broken + gen_gate(run, 'translator_fixed', 'gen_fixed', 'programs',
+                                   'Gen.add/sub/mulOp/divOp/mul/div/muldiv = C12.*Prog by rfl; fixed_*_is_program (lean/Props/C12Prog.lean)',
+                                   'the arithmetic methods of droop/values/fixed.py, executed symbolically, no longer return the expressions '
+                                   'lean/Props/C12Prog.lean proves the model to compute')
     rng = rng_for(run)
     items = gen_ops(rng, budget(run, 40000, 600000), ['fixed', 'fixed', 'integer', 'rational'])
     items += grid_ops(['fixed'], R=budget(run, 5, 12), ps=(0, 1, 2) if run.tier == 'quick' else (0, 1, 2, 3, 4))
